@@ -15,6 +15,7 @@ package tr
 //   calls of partial functions inside an expression: the statement that evaluates it becomes
 //                                                   match CALL with Some P => STMT | None => None end
 //                                                   (the caller is partial too)
+//   x, err := f(..); if err != nil { S }             match F .. with Some a_x => REST | None => S end
 //   struct receivers and parameters (WayNode, Member): the fields that the function, or the
 //                                                   methods it calls on the same value, read
 //                                                   become separate parameters a_<x>_<Field>
@@ -361,63 +362,140 @@ func (t *tr2) expr(e ast.Expr) (string, error) {
 			}
 			return "", fmt.Errorf("%s: unsupported conversion to %s", t.p.Pos(e), tv.Type)
 		}
-		if sel, ok := x.Fun.(*ast.SelectorExpr); ok {
-			if s, ok := t.p.Info.Selections[sel]; ok && s.Kind() == types.MethodVal {
-				tn, ok := recvTypeName(s.Recv())
-				if !ok {
-					return "", fmt.Errorf("%s: method on unnamed type", t.p.Pos(e))
-				}
-				rt := s.Recv()
-				if pt, ok := rt.(*types.Pointer); ok {
-					rt = pt.Elem()
-				}
-				if named, ok := rt.(*types.Named); !ok || named.Obj().Pkg() != t.p.Types {
-					return "", fmt.Errorf("%s: method on foreign type", t.p.Pos(e))
-				}
-				key := tn + "." + sel.Sel.Name
-				var args []string
-				if st := structOf(s.Recv()); st != nil {
-					id, ok := sel.X.(*ast.Ident)
-					if !ok {
-						return "", fmt.Errorf("%s: method call on a struct expression", t.p.Pos(e))
-					}
-					for _, i := range t.fieldsUsed(key, map[string]bool{}) {
-						v, ok := t.env[id.Name+"."+st.Field(i).Name()]
-						if !ok {
-							return "", fmt.Errorf("%s: field %s of %s is not a parameter here", t.p.Pos(e), st.Field(i).Name(), id.Name)
-						}
-						args = append(args, v)
-					}
-				} else {
-					recv, err := t.expr(sel.X)
-					if err != nil {
-						return "", err
-					}
-					args = append(args, recv)
-				}
-				for _, a := range x.Args {
-					s, err := t.expr(a)
-					if err != nil {
-						return "", err
-					}
-					args = append(args, s)
-				}
-				t.used["f:"+key] = true
-				call := "(" + CoqFuncName(tn, sel.Sel.Name) + " " + strings.Join(args, " ") + ")"
-				if len(args) == 0 {
-					call = CoqFuncName(tn, sel.Sel.Name)
-				}
-				if t.partial(key) {
-					v := t.fresh()
-					t.binds = append(t.binds, [2]string{v, call})
-					return v, nil
-				}
-				return call, nil
+		if call, key, ok, err := t.methodCall(x); ok {
+			if err != nil {
+				return "", err
 			}
+			if rts := t.resultTypes(t.decls[key]); len(rts) != 1 {
+				return "", fmt.Errorf("%s: a call with several results inside an expression", t.p.Pos(e))
+			}
+			if t.partial(key) {
+				v := t.fresh()
+				t.binds = append(t.binds, [2]string{v, call})
+				return v, nil
+			}
+			return call, nil
 		}
 		return "", fmt.Errorf("%s: unsupported call", t.p.Pos(e))
 	}
 	return "", fmt.Errorf("%s: unsupported expression %T", t.p.Pos(e), e)
+}
+
+// methodCall builds the Coq application for a call of a method of this package.
+// ok = false: x is not such a call.
+func (t *tr2) methodCall(x *ast.CallExpr) (call, key string, ok bool, err error) {
+	sel, isSel := x.Fun.(*ast.SelectorExpr)
+	if !isSel {
+		return "", "", false, nil
+	}
+	s, isM := t.p.Info.Selections[sel]
+	if !isM || s.Kind() != types.MethodVal {
+		return "", "", false, nil
+	}
+	tn, named := recvTypeName(s.Recv())
+	if !named {
+		return "", "", true, fmt.Errorf("%s: method on unnamed type", t.p.Pos(x))
+	}
+	rt := s.Recv()
+	if pt, isP := rt.(*types.Pointer); isP {
+		rt = pt.Elem()
+	}
+	if nt, isN := rt.(*types.Named); !isN || nt.Obj().Pkg() != t.p.Types {
+		return "", "", true, fmt.Errorf("%s: method on foreign type", t.p.Pos(x))
+	}
+	key = tn + "." + sel.Sel.Name
+	if _, have := t.decls[key]; !have {
+		return "", "", true, fmt.Errorf("%s: method %s has no declaration in the package", t.p.Pos(x), key)
+	}
+	var args []string
+	if st := structOf(s.Recv()); st != nil {
+		id, isId := sel.X.(*ast.Ident)
+		if !isId {
+			return "", "", true, fmt.Errorf("%s: method call on a struct expression", t.p.Pos(x))
+		}
+		for _, i := range t.fieldsUsed(key, map[string]bool{}) {
+			v, have := t.env[id.Name+"."+st.Field(i).Name()]
+			if !have {
+				return "", "", true, fmt.Errorf("%s: field %s of %s is not a parameter here", t.p.Pos(x), st.Field(i).Name(), id.Name)
+			}
+			args = append(args, v)
+		}
+	} else {
+		recv, err := t.expr(sel.X)
+		if err != nil {
+			return "", "", true, err
+		}
+		args = append(args, recv)
+	}
+	for _, a := range x.Args {
+		v, err := t.expr(a)
+		if err != nil {
+			return "", "", true, err
+		}
+		args = append(args, v)
+	}
+	t.used["f:"+key] = true
+	call = "(" + CoqFuncName(tn, sel.Sel.Name) + " " + strings.Join(args, " ") + ")"
+	if len(args) == 0 {
+		call = CoqFuncName(tn, sel.Sel.Name)
+	}
+	return call, key, true, nil
+}
+
+// errCheck recognises   x, err := CALL   followed by   if err != nil { S }   where CALL returns
+// (T, error): the pair becomes  match CALL with Some a_x => REST | None => S end.
+func (t *tr2) errCheck(l []ast.Stmt) (string, bool, error) {
+	as, ok := l[0].(*ast.AssignStmt)
+	if !ok || len(as.Lhs) != 2 || len(as.Rhs) != 1 || len(l) < 2 {
+		return "", false, nil
+	}
+	ce, ok := as.Rhs[0].(*ast.CallExpr)
+	if !ok {
+		return "", false, nil
+	}
+	v, ok1 := as.Lhs[0].(*ast.Ident)
+	e, ok2 := as.Lhs[1].(*ast.Ident)
+	ifs, ok3 := l[1].(*ast.IfStmt)
+	if !ok1 || !ok2 || !ok3 || ifs.Init != nil || ifs.Else != nil {
+		return "", false, nil
+	}
+	be, ok := ifs.Cond.(*ast.BinaryExpr)
+	if !ok || be.Op != token.NEQ {
+		return "", false, nil
+	}
+	lx, ok1 := be.X.(*ast.Ident)
+	ly, ok2 := be.Y.(*ast.Ident)
+	if !ok1 || !ok2 || lx.Name != e.Name || ly.Name != "nil" {
+		return "", false, nil
+	}
+	term, err := t.withBinds(as, func() (string, error) {
+		call, key, isM, err := t.methodCall(ce)
+		if !isM {
+			return "", fmt.Errorf("%s: unsupported call with two results", t.p.Pos(ce))
+		}
+		if err != nil {
+			return "", err
+		}
+		rts := t.resultTypes(t.decls[key])
+		if len(rts) != 2 || rts[1].String() != "error" {
+			return "", fmt.Errorf("%s: the callee does not return (T, error)", t.p.Pos(ce))
+		}
+		if !endsInReturnOrPanic(ifs.Body.List) {
+			return "", fmt.Errorf("%s: the error branch falls through", t.p.Pos(ifs))
+		}
+		bad, err := t.stmts(ifs.Body.List)
+		if err != nil {
+			return "", err
+		}
+		cn := t.coqName(v.Name)
+		t.env[v.Name] = cn
+		rest, err := t.stmts(l[2:])
+		if err != nil {
+			return "", err
+		}
+		return fmt.Sprintf("(match %s with Some %s => %s | None => %s end)", call, cn, rest, bad), nil
+	})
+	return term, true, err
 }
 
 // withBinds evaluates f (which may call partial functions) and wraps the produced term into the
@@ -544,6 +622,9 @@ func (t *tr2) coqName(x string) string { return "a_" + x }
 func (t *tr2) stmts(l []ast.Stmt) (string, error) {
 	if len(l) == 0 {
 		return "", fmt.Errorf("fall off the end of a function")
+	}
+	if term, ok, err := t.errCheck(l); ok {
+		return term, err
 	}
 	switch s := l[0].(type) {
 	case *ast.ReturnStmt:
